@@ -34,6 +34,7 @@ def shape(reset):
 def validate(c, prop, trace, timeout=1500):
     r = c.validate("DataplaneTrace", "DataplaneTrace.%s.cfg" % prop, trace, timeout=timeout)
     c.judge_trace(r, trace)
+    _fix_replays(c, trace)
     drift = sorted(set(m for m in __import__("re").findall(r'"VERIF-DRIFT",\s*\d+,\s*"([^"]*)"', r.out)))
     if drift:
         c.notes.append("MODEL-DRIFT (not a verdict): " + "; ".join(drift[:10]))
@@ -97,3 +98,27 @@ def coverage(c, trace, nontrivial, rule, sample_events=8):
                                  for e in evs[:sample_events]]})
             if len(c.cov["samples"]) >= 3:
                 break
+
+
+def _fix_replays(c, trace):
+    """A stored replay slice starts at a reset record; prepend the topology record it refers to, so
+    that `bin/check <ID> --replay <slice>` is self-contained."""
+    topos = {}
+    for (key, rp, what) in c.violations:
+        if not rp:
+            continue
+        try:
+            lines = open(rp).read().splitlines()
+            if not lines or '"ev":"topo"' in lines[0]:
+                continue
+            if not topos:
+                with open(trace) as f:
+                    for line in f:
+                        if '"ev":"topo"' in line:
+                            topos[json.loads(line)["t"]["name"]] = line.rstrip("\n")
+            name = json.loads(lines[0]).get("topo")
+            if name in topos:
+                with open(rp, "w") as g:
+                    g.write(topos[name] + "\n" + "\n".join(lines) + "\n")
+        except Exception:
+            pass
